@@ -20,6 +20,7 @@ import (
 	"github.com/maruel/panicparse/v2/stack"
 	"github.com/maruel/panicparse/v2/stack/webstack"
 
+	"verifharness"
 	"verifharness/core"
 	xhtml "verifharness/third_party/xhtml"
 )
@@ -234,6 +235,14 @@ func runC20(r *core.Run) {
 	srv.Start()
 	defer srv.Close()
 	world := startLive(core.NewRand(r.Seed, 2020))
+	// goroutines whose innermost frame is in a file at the root of a module (relative path without a directory)
+	rootStop := make(chan struct{})
+	for i := 0; i < 3; i++ {
+		st := make(chan struct{})
+		go verifharness.ParkAtModuleRoot(st, rootStop)
+		<-st
+	}
+	defer close(rootStop)
 	stopChurn := make(chan struct{})
 	var cw sync.WaitGroup
 	for i := 0; i < 4; i++ {
